@@ -48,6 +48,12 @@ def run():
     recs = read_ndjson(out)
     if vlib.build_failed(txt) or rc != 0 or not recs:
         raise vlib.Inconclusive("CLI driver failed:\n" + txt[-3000:])
+    for x in recs:
+        if x.get("ev") == "probe":
+            acc.extra.setdefault("probes", []).append(x)
+            if x.get("deviates"):
+                v.fail("probe:" + x["id"], x)
+    recs = [x for x in recs if x.get("ev") != "probe"]
     lines = validate(v, acc, "TraceCLI", "TraceCLI.cfg", CFG, "trace_cli.ndjson", recs, classify, "CLI output vs library")
     inv = [x for x in lines if x.get("ev") == "cli"]
     acc.traces += len(inv); acc.evaluations += len(inv) + sum(1 for x in lines if x.get("ev") == "lib")
